@@ -51,6 +51,10 @@ def _c13_judge(op, impl, spec):
 def _c16_judge(op, impl, spec):
     if spec in ("*", "-"):
         return not impl.startswith(("PANIC", "err:", "bad-op"))
+    if impl.endswith(" H=manifest") and not impl.startswith(("PANIC", "bad-op")):
+        # the manifest is not among the files the property names (table, commit-log, value-log files): an altered
+        # manifest is executed and counted (outside_H_manifest), its outcome - also different data - is not judged
+        return True
     return impl.split(" H=")[0] in ("same", "err-open", "err-read", "skip")
 
 
@@ -455,7 +459,7 @@ PROPS = {
             {"name": "tablefile", "harness": "c16", "driver": "c16", "quick_cases": 25, "thorough_cases": 120,
              "nontrivial": lambda lines: sum(1 for l in lines if l.startswith("flip")) > 300,
              "judge": _c16_judge, "timeout": 3000},
-            {"name": "storedir", "harness": "c16s", "driver": "c16s", "quick_cases": 12, "thorough_cases": 60,
+            {"name": "storedir", "harness": "c16s", "driver": "c16s", "quick_cases": 12, "thorough_cases": 18,
              "nontrivial": lambda lines: sum(1 for l in lines if l.startswith("alter")) > 50,
              "judge": _c16_judge, "model_is_spec": True, "timeout": 3000},
             # commit-log segments: the byte-exact WAL model of C12 (cuts, bit flips and byte overwrites concentrated on
